@@ -88,8 +88,8 @@ type c15Prop struct {
 	votEnd    time.Time
 	period    time.Duration
 	quorum    sdkmath.LegacyDec
-	votes     map[string]govv1.VoteOption // voter bech32 -> option
-	split    map[string]govv1.WeightedVoteOptions // weighted votes (a later vote of the same voter replaces the earlier one, of either kind)
+	votes     map[string]govv1.VoteOption          // voter bech32 -> option
+	split     map[string]govv1.WeightedVoteOptions // weighted votes (a later vote of the same voter replaces the earlier one, of either kind)
 	done      bool
 	outcome   string
 	execFails bool // messages are built to fail on execution
